@@ -130,7 +130,13 @@ func (ti *TypeInfo) Enter(node ast.Node) {
 			ttype, _ = typeFromAST(*schema, node.TypeCondition)
 			ti.typeStack = append(ti.typeStack, ttype)
 		} else {
-			ti.typeStack = append(ti.typeStack, ti.Type())
+			// without a type condition the fragment applies to the named
+			// type of the enclosing field, not to its list / non-null wrapper
+			var named Output
+			if current := ti.Type(); current != nil {
+				named, _ = GetNamed(current).(Output)
+			}
+			ti.typeStack = append(ti.typeStack, named)
 		}
 	case *ast.FragmentDefinition:
 		typeConditionAST := node.TypeCondition
